@@ -32,7 +32,7 @@ def unit_regions(repo):
     idx = os.path.join(GEN, "RegionCertsAll.v")
     if os.path.exists(idx) and os.path.exists(os.path.join(GEN, "RegionExistAll.v")) and h in open(idx).readline():
         return "RegionCertsAll.v", open(idx).read()
-    for f in glob.glob(os.path.join(GEN, "RegionCerts*.v")) + glob.glob(os.path.join(GEN, "RegionExist*.v")):
+    for f in glob.glob(os.path.join(GEN, "RegionCerts*.v")) + glob.glob(os.path.join(GEN, "RegionExist*.v")) + glob.glob(os.path.join(GEN, "RegionUniq*.v")):
         os.remove(f)
     env = dict(os.environ)
     env.update(PYTHONPATH=repo, PYTHONHASHSEED="0", NUMBA_CACHE_DIR=os.path.join(VERIF, "build", "numba"),
